@@ -641,6 +641,18 @@ class Metrics:
         if not is_started and (rank in cls.line_order or rank in cls.rank_matches):
             cls._startTrace(rank, type_)
 
+        # If the other flavour (file / in-memory) of this trace is already
+        # running, the flavour just requested has to be started on its own
+        elif is_started:
+            started_file, started_mem, _ = cls.traces[rank][type_]
+            if consumable:
+                cls.traces[rank][type_] = (None, started_mem, is_started)
+            else:
+                cls.traces[rank][type_] = (started_file, None, is_started)
+
+            cls._startTrace(rank, type_)
+            cls.traces[rank][type_] = (started_file, started_mem, True)
+
     @classmethod
     def _writeTrace(cls, rank, type_):
         """Write the trace to the file
